@@ -16,8 +16,8 @@ import time
 
 VERIF = os.path.dirname(os.path.dirname(os.path.abspath(__file__)))
 REPO = os.environ.get("LR_REPO", "/repo")
-CACHE = os.path.join(VERIF, ".cache")
-DRIVER = os.path.join(VERIF, "driver", "target", "release", "lrfacts")
+CACHE = os.environ.get("LR_CACHE") or os.path.join(VERIF, ".cache")
+DRIVER = os.environ.get("LR_DRIVER") or os.path.join(VERIF, "driver", "target", "release", "lrfacts")
 
 WORKSPACE_CRATES = ["liquid", "liquid_core", "liquid_lib", "liquid_derive", "liquid_help_md", "liquid_bin"]
 LIB_CRATES = ["liquid", "liquid_core", "liquid_lib"]
